@@ -53,3 +53,54 @@ End C09gen.
 Print Assumptions C09_code_phase_order.
 Print Assumptions C09_code_rounds_bound.
 Print Assumptions C09_code_rejects_nonpositive_limit.
+
+(* ---- the LABELLING STEP AS TRANSLATED in skeleton mode (Gen/G_la_predict.v; facts: Proofs/GenEquivPH.v): the labelling kernel is
+   called on the NEGATED likelihood table of the given model and data with the model's own switching cost (a real number passed
+   through float, anything else as it is), and the state returned carries, on a copy of the given one, the labels [0] and the
+   cost [1] OF THAT SAME kernel answer - what the step reports is what it scored ---- *)
+From Ticc Require Import Gen.PySkel Gen.G_la_predict Proofs.GenEquivPH.
+Section SkelPH09.
+  Local Open Scope string_scope.
+  Variable V : Type.
+  Variable vnone : V.
+  Variable vint : Z -> V.
+  Variable as_int : V -> option Z.
+  Variable veq : V -> V -> bool.
+  Variable getattr : V -> string -> V.
+  Variable truthy : V -> bool.
+  Variable is_none : V -> bool.
+  Variables vtrue vfalse : V.
+  Variable as_list : V -> list V.
+  Variable vglobal : string -> V.
+  Variable oracle : list (event V) -> string -> list V -> res V.
+  Theorem C09_code_relabel_plumbing (model data r : V) (log log' : list (event V)) :
+    g_predict_cluster_labels V getattr truthy vglobal oracle model data log = (Ret r, log') ->
+    let beta := getattr (getattr model "arguments") "label_switching_cost" in
+    exists table neg isr beta' lab m0 cl m1 m2,
+      let pre := (log ++ [Ev f_table [model; data]; Ev "op:neg" [table];
+                          Ev "isinstance" [beta; vglobal "numbers.Real"]]
+                      ++ (if truthy isr then [Ev "float" [beta]] else []))%list in
+      log' = (pre ++ [Ev f_assign [neg; beta'];
+                      Ev "method:shallow_copy" [model];
+                      Ev f_deep_new [m0];
+                      Ev "setattr:clusters" [m0; cl];
+                      Ev "setattr:point_labels" [m1; getattr lab "[0]"];
+                      Ev "setattr:label_assignment_cost" [m2; getattr lab "[1]"]])%list /\
+      oracle log f_table [model; data] = Ret table /\
+      oracle (log ++ [Ev f_table [model; data]])%list "op:neg" [table] = Ret neg /\
+      oracle (log ++ [Ev f_table [model; data]; Ev "op:neg" [table]])%list
+             "isinstance" [beta; vglobal "numbers.Real"] = Ret isr /\
+      (if truthy isr
+       then oracle (log ++ [Ev f_table [model; data]; Ev "op:neg" [table];
+                            Ev "isinstance" [beta; vglobal "numbers.Real"]])%list "float" [beta] = Ret beta'
+       else beta' = beta) /\
+      oracle pre f_assign [neg; beta'] = Ret lab /\
+      oracle (pre ++ [Ev f_assign [neg; beta'];
+                      Ev "method:shallow_copy" [model];
+                      Ev f_deep_new [m0];
+                      Ev "setattr:clusters" [m0; cl];
+                      Ev "setattr:point_labels" [m1; getattr lab "[0]"]])%list
+             "setattr:label_assignment_cost" [m2; getattr lab "[1]"] = Ret r.
+  Proof. intros; eapply predict_returns; eassumption. Qed.
+End SkelPH09.
+Print Assumptions C09_code_relabel_plumbing.
